@@ -382,15 +382,16 @@ Proof. unfold wf', init_state. cbn. repeat split; try constructor; try lia; intr
 Lemma reset_model_wf s : wf' (reset_model s).
 Proof. unfold wf', reset_model. cbn. repeat split; try constructor; try lia; intro Hc; discriminate. Qed.
 
-(* C18: reset returns the decoder to the state of a newly created one (same options, remaining limit,
-   chunk-buffer capacity and Adler flag of the inflater, which new() also derives from the options) *)
+(* C18: reset returns the decoder to the state of a newly created one (same options, remaining limit, and the Adler flag of the
+   inflater, which new() also derives from the options).  The chunk buffer is back at its initial capacity (after the repair: a buffer
+   that had grown made the next stream's large chunks come out with fewer PartialChunk events than a new decoder reports). *)
 Theorem reset_is_fresh s :
-  reset_model s = (init_state (opts s) (budget s)) <| c_cap := c_cap s |> <| infl := zreset (infl s) |>.
+  reset_model s = (init_state (opts s) (budget s)) <| infl := zreset (infl s) |>.
 Proof. destruct s. reflexivity. Qed.
 
 Corollary reset_is_fresh_exact s :
-  z_ignore_adler (infl s) = o_ignore_adler (opts s) -> c_cap s = CHUNK_BUFFER_SIZE ->
+  z_ignore_adler (infl s) = o_ignore_adler (opts s) ->
   reset_model s = init_state (opts s) (budget s).
-Proof. intros H1 H2. rewrite reset_is_fresh. destruct s as [? ? ? ? ? ? [? ? ? ?] ? ? ? ? ? ? ? ?]. cbn in *. subst. reflexivity. Qed.
+Proof. intros H1. rewrite reset_is_fresh. destruct s as [? ? ? ? ? ? [? ? ? ?] ? ? ? ? ? ? ? ?]. cbn in *. subst. reflexivity. Qed.
 
 End WithInflate.
